@@ -780,7 +780,7 @@ class Op(object):
                 self.nums = [int(w[3]), int(w[4])]
             elif self.sub == 'perm':
                 self.nums = [int(x) for x in w[3].split(',')] if w[3] != '_' else []
-            elif self.sub not in ('rev', 'clr'):
+            elif self.sub not in ('rev', 'rs', 'clr'):
                 raise ValueError(op)
         elif k != 'del':
             raise ValueError(op)
@@ -816,6 +816,8 @@ def _list_op(P, ref):
         ref.remove(ref[P.nums[0]])
     elif s == 'rev':
         ref.reverse()
+    elif s == 'rs':
+        ref[:] = ref[::-1]
     elif s == 'clr':
         ref.clear()
     elif s == 'sl':
@@ -952,6 +954,8 @@ def perform(soup, P, variant=0):
             node.args.remove(node.args[P.nums[0]])
         elif s == 'rev':
             node.args.reverse()
+        elif s == 'rs':
+            node.args = node.args[::-1]
         elif s == 'clr':
             node.args.clear()
         elif s == 'sl':
